@@ -159,6 +159,7 @@ func VH_C01_History() {
 	name2 := vhC01Others[symChoice(len(vhC01Others))]
 	// the reference first: a fresh engine while every pool of the process is still empty
 	fresh := vhRender(vhC01Engine(name), name, ctx)
+	keep := string(append([]byte(nil), fresh.out...)) // a private copy of the bytes returned
 	e := vhC01Engine(name, name2, "fail-filter")
 	other := vhC01Engine(name2)
 	tag := "tpl:" + name + " other:" + name2 + " hist:"
@@ -210,6 +211,8 @@ func VH_C01_History() {
 	got := vhRender(e, name, ctx)
 	symCover("rendered")
 	symAssert(got == fresh, "history-independent")
+	// a result handed out earlier is a value: later renders do not change it
+	symAssert(fresh.out == keep, "earlier-result-still-intact")
 }
 
 // ---- C01.global: results that could be remembered process-wide ----------------------------------
